@@ -155,6 +155,13 @@ func (vc *VC) heapGet(st *State, name, arrSort string) Term {
 	if st.epoch > 0 {
 		init = fmt.Sprintf("%s_e%d", name, st.epoch)
 	}
+	// a call that may write every struct of a package (modifies pkg:<name>) also forgets the components
+	// of that package this path has not touched yet
+	for pre, e := range st.prefixEpoch {
+		if strings.HasPrefix(name, pre) && e > st.epoch {
+			init = fmt.Sprintf("%s_p%d", name, e)
+		}
+	}
 	vc.declare(init, arrSort)
 	return Term{init, arrSort}
 }
